@@ -76,6 +76,8 @@ def parseMap (s : String) : Array (Nat × List Nat) :=
 
 def alnumRanges : Array (Nat × Nat) := parseRanges Gen.alnumData
 def wsRanges : Array (Nat × Nat) := parseRanges Gen.wsData
+def ignRanges : Array (Nat × Nat) := parseRanges Gen.ignData
+def casedRanges : Array (Nat × Nat) := parseRanges Gen.casedData
 def upperMap : Array (Nat × List Nat) := parseMap Gen.upperData
 def lowerMap : Array (Nat × List Nat) := parseMap Gen.lowerData
 
@@ -84,6 +86,8 @@ def charEnv : CharEnv where
   isWs c := inRanges wsRanges c.toNat
   upper c := match lookupMap upperMap c.toNat with | some r => r.map Char.ofNat | none => [c]
   lower c := match lookupMap lowerMap c.toNat with | some r => r.map Char.ofNat | none => [c]
+  caseIgn c := inRanges ignRanges c.toNat
+  cased c := inRanges casedRanges c.toNat
 
 def lexCfg : LexCfg := genLexCfg charEnv.isAlnum
 
